@@ -415,6 +415,12 @@ func (r *replayer) runJobs(rel string, jobs []job, timeout time.Duration, tag st
 	}
 	data, rerr := os.ReadFile(of)
 	if rerr != nil {
+		// a fatal runtime error (unbounded recursion overflowing the stack, concurrent map writes ...)
+		// kills the process before it can write its result: for a single replayed counterexample that
+		// IS the reproduction of a crash
+		if len(jobs) == 1 && (strings.Contains(string(out), "stack overflow") || strings.Contains(string(out), "fatal error:")) {
+			return []nativeResult{{Harness: jobs[0].Harness, Panic: "fatal runtime error: " + firstLine(string(out), "fatal error:")}}, false, nil
+		}
 		return nil, false, fmt.Errorf("native run failed: %v\n%s", err, tail(string(out), 2000))
 	}
 	var res []nativeResult
@@ -422,6 +428,16 @@ func (r *replayer) runJobs(rel string, jobs []job, timeout time.Duration, tag st
 		return nil, false, err
 	}
 	return res, false, nil
+}
+
+func firstLine(s, marker string) string {
+	if i := strings.Index(s, marker); i >= 0 {
+		s = s[i:]
+	}
+	if j := strings.Index(s, "\n"); j >= 0 {
+		s = s[:j]
+	}
+	return s
 }
 
 func tail(s string, n int) string {
@@ -486,6 +502,9 @@ func replayOnly(c *cfg, files []harnessFile, overlay map[string][]byte, pkgFuncs
 			}
 		}
 		if v.Kind == "panic" && nr.Panic != "" {
+			repro = true
+		}
+		if v.Kind == "unwind" && strings.HasPrefix(nr.Panic, "fatal runtime error") {
 			repro = true
 		}
 	}
